@@ -2,7 +2,7 @@
 observations; queries are total; rejected input changes nothing."""
 import math
 
-from vf import common, shrink as shr
+from vf import common, shrink as shr, twothread
 from vf.models import refstats
 
 common.use_repo()
@@ -11,6 +11,7 @@ from pydsol.core.pubsub import EventListener                      # noqa: E402
 from pydsol.core.statistics import (Tally, Counter, EventBasedTally,   # noqa: E402
                                     EventBasedCounter)
 from pydsol.core.units import Duration, Length                    # noqa: E402
+import pydsol.core.statistics as _statmod                         # noqa: E402
 
 PROPERTY = "C09"
 LEVEL = "exploration"
@@ -31,8 +32,9 @@ RULE = ("one case = a history over a Tally / EventBasedTally without and with a 
         "3 accepted observations and at least one rejected input or initialize in "
         "the history; distinct = digest of the history")
 COMPONENTS = {"real": ["pydsol.core.statistics (Tally, Counter, EventBasedTally, EventBasedCounter)",
-                       "pydsol.core.pubsub"], "stub": []}
-ASSUMPTIONS = ["weak fit: history + exact reference model, no scheduler or clock",
+                       "pydsol.core.pubsub"],
+              "stub": ["threading.Thread.start / thread scheduling (baton scheduler, two-thread layer only)"]}
+ASSUMPTIONS = ["weak fit for the single-caller layer (history + exact reference model, no scheduler or clock); the two-thread layer runs a registering and a querying caller thread under the baton scheduler and judges only the state after both have finished (values read during the overlap and concurrent registration from two threads are not judged: the property does not promise them)",
                "confidence_interval(alpha) only for 0 < alpha <= 1",
                "skewness/kurtosis accuracy is only judged while the bound 64(n+8)eps(1+kappa)^p stays below 1e-3 (ill-conditioned data: totality and NaN structure only)"]
 
@@ -75,8 +77,90 @@ def gen_values(rng, regime, n):
     return [rng.random() for _ in range(n)]
 
 
+def init_worker():
+    twothread.install(_statmod)
+
+
+def gen_threaded(rng, seed):
+    """Two caller threads share one tally / counter: one registers, the other
+    queries meanwhile (seeded pre-emption inside statistics.py); only the state
+    after both have finished is judged."""
+    kind = rng.choice(["tally", "tally", "counter"])
+    n = rng.choice([1, 2, 3, 4, 6, 10])
+    if kind == "counter":
+        vals = [rng.choice([1, 1, -1, 2, 5, 0]) for _ in range(n)]
+    else:
+        vals = gen_values(rng, rng.choice(["small_ints", "dyadic", "two_values"]), n)
+    return {"kind": kind, "variant": rng.choice(["plain", "event"]), "threaded": True,
+            "regime": "two_threads", "ops": [["reg", v] for v in vals],
+            "queries": rng.choice([1, 2, 3, 6]),
+            "sched": {"seed": seed, "p": rng.choice([0.02, 0.1, 0.3]),
+                      "d": rng.choice([2, 4, 8, 20])}}
+
+
+def run_threaded(case):
+    info = {"accepted": 0, "rejected": 0, "inits": 0, "published": 0}
+    if case["kind"] == "counter":
+        st = Counter("c") if case["variant"] == "plain" else EventBasedCounter("c")
+    else:
+        st = Tally("t") if case["variant"] == "plain" else EventBasedTally("t")
+    xs = [op[1] for op in case["ops"]]
+
+    def writer():
+        for x in xs:
+            st.register(x)
+
+    def reader():
+        for _ in range(case["queries"]):
+            if case["kind"] == "counter":
+                st.count()
+                st.n()
+            else:
+                read(st, GETTERS)
+                st.confidence_interval(0.05)
+
+    det, errors = twothread.run_two(case["sched"], writer, reader)
+    info["switches"] = det.n_switch
+    info["accepted"] = len(xs)
+    if det.aborted:
+        return ("harness", "two-thread run aborted: %s" % det.aborted), info
+    for who, name, msg in errors:
+        if who == "writer":
+            return ("register-raised", "with a second thread querying, the registering "
+                    "thread raised %s: %s" % (name, msg)), info
+    if case["kind"] == "counter":
+        if st.count() != sum(xs) or st.n() != len(xs):
+            return ("getter", "one thread registered %s while another queried the counter; "
+                    "after both have finished count=%r n=%r, exact count=%d n=%d"
+                    % (xs[:6], st.count(), st.n(), sum(xs), len(xs))), info
+        return None, info
+    ex = refstats.tally_exact(xs)
+    got = read(st, GETTERS)
+    for g in GETTERS:
+        name = gname(g)
+        exact, tol = ex[name]
+        msg = refstats.compare(name, got[name], exact, tol)
+        if msg:
+            return ("getter", "one thread registered %s while another queried the tally (%d "
+                    "thread switches inside statistics.py); after both have finished: %s"
+                    % (xs[:6], det.n_switch, msg)), info
+    if len(xs) >= 2:
+        ci = st.confidence_interval(0.05)
+        lo, hi, c = refstats.ci_exact(xs, 0.05, ex)
+        tol = (abs(c) + abs(lo) + abs(hi)) * 64 * (len(xs) + 8) * refstats.EPS \
+            * (1 + ex.get("_kappa", 1.0)) + ex["mean"][1] + 1e-300
+        if any(isinstance(v, float) and math.isnan(v) for v in ci) or \
+                abs(ci[0] - lo) > tol or abs(ci[1] - hi) > tol:
+            return ("getter", "one thread registered %s while another queried the tally; after "
+                    "both have finished confidence_interval(0.05) returns %r, definition "
+                    "gives (%r, %r)" % (xs[:6], ci, lo, hi)), info
+    return None, info
+
+
 def generate(seed, tier, idx=0):
     rng = common.rng_for(seed, "case")
+    if rng.random() < 0.12:
+        return gen_threaded(rng, seed)
     if rng.random() < 0.12:
         n = rng.choice([0, 1, 2, 5, 20])
         ops = []
@@ -109,7 +193,7 @@ def generate(seed, tier, idx=0):
             ops.append(["reg", v])
         r = rng.random()
         if r < 0.06:
-            ops.append(["bad", rng.choice(["nan", "str", "none", "list"])])
+            ops.append(["bad", rng.choice(["nan", "str", "none", "list", "hugeint", "neghugeint"])])
         elif r < 0.09:
             ops.append(["init"])
         elif r < 0.16:
@@ -170,7 +254,9 @@ def snapshot_text(d):
     return {k: (common.fhex(v) if isinstance(v, float) else repr(v)) for k, v in d.items()}
 
 
-BAD = {"nan": float("nan"), "str": "abc", "none": None, "list": [1.0], "1.0": 1.0}
+BAD = {"nan": float("nan"), "str": "abc", "none": None, "list": [1.0], "1.0": 1.0,
+       # plain ints beyond the float range: cannot be an observation, any refusal will do
+       "hugeint": 10 ** 400, "neghugeint": -(2 ** 1100)}
 
 
 def run_tally(case):
@@ -256,15 +342,15 @@ def run_tally(case):
             before = snapshot_text(read(st, GETTERS))
             try:
                 st.register(BAD[op[1]])
-                return ("invalid-accepted", "op #%d register(%r) was accepted"
+                return ("invalid-accepted", "op #%d register(%.40r) was accepted"
                         % (i, BAD[op[1]])), info
-            except (TypeError, ValueError):
+            except (TypeError, ValueError, OverflowError):
                 pass
             after = snapshot_text(read(st, GETTERS))
             info["rejected"] += 1
             if before != after:
                 diff = {k: (before[k], after[k]) for k in before if before[k] != after[k]}
-                return ("rejected-input-changed-state", "op #%d rejected register(%r) "
+                return ("rejected-input-changed-state", "op #%d rejected register(%.40r) "
                         "changed %s" % (i, BAD[op[1]], diff)), info
         elif op[0] == "init":
             st.initialize()
@@ -325,17 +411,23 @@ def run_counter(case):
 
 
 def execute(case):
-    f, info = run_tally(case) if case["kind"] == "tally" else run_counter(case)
-    res = {"clean": True, "digest": common.digest([case, f and f[0]]),
+    if case.get("threaded"):
+        f, info = run_threaded(case)
+    else:
+        f, info = run_tally(case) if case["kind"] == "tally" else run_counter(case)
+    res = {"clean": f is None or f[0] != "harness", "digest": common.digest([case, f and f[0]]),
            "counters": {"variant:" + case["variant"]: 1,
                         "regime:" + case.get("regime", "counter"): 1,
                         "fault:rejected_input": info["rejected"],
                         "accepted_observations": info["accepted"],
-                        "published_values_checked": info["published"]},
-           "nontrivial": info["accepted"] >= 3 and (info["rejected"] + info["inits"]) >= 1,
+                        "published_values_checked": info["published"],
+                        "layer:two_threads": 1 if case.get("threaded") else 0,
+                        "fault:preempt": info.get("switches", 0)},
+           "nontrivial": info["accepted"] >= 3 and (info["rejected"] + info["inits"]
+                                                    + info.get("switches", 0)) >= 1,
            "case_digest": common.digest8(case)}
     if f:
-        res["status"] = "violation"
+        res["status"] = "harness" if f[0] == "harness" else "violation"
         res["check_id"], res["message"] = f
     else:
         res["status"] = "ok"
